@@ -272,7 +272,8 @@ class Pair:
     `peer` the other one, used as a raw sender (its own `_send_message`) and as the observer (hooks in the
     *peer's* per-instance handler table; the subject is not touched)."""
 
-    def __init__(self, subject_role, cls="Transport", auth=True, strict=True, socks=None):
+    def __init__(self, subject_role, cls="Transport", auth=True, strict=True, socks=None, cipher=None,
+                 subject_kwargs=None):
         import paramiko
         from paramiko.transport import ServiceRequestingTransport, Transport
         from tests._loop import LoopSocket
@@ -283,8 +284,13 @@ class Pair:
         sub_cls = ServiceRequestingTransport if cls == "SRT" else Transport
         c_cls = sub_cls if subject_role == "client" else Transport
         s_cls = sub_cls if subject_role == "server" else Transport
-        self.tc = c_cls(a, strict_kex=strict)
-        self.ts = s_cls(b, strict_kex=strict)
+        da = None
+        if cipher:
+            da = {"ciphers": [c for c in Transport._preferred_ciphers if c != cipher]}
+        kc = dict(subject_kwargs or {}) if subject_role == "client" else {}
+        ks = dict(subject_kwargs or {}) if subject_role == "server" else {}
+        self.tc = c_cls(a, strict_kex=strict, disabled_algorithms=da, **kc)
+        self.ts = s_cls(b, strict_kex=strict, disabled_algorithms=da, **ks)
         self.ts.add_server_key(host_key())
         self.server_obj = make_server_class()()
         ev = threading.Event()
@@ -470,22 +476,52 @@ def modulus_pack():
 
 
 def gate_socket():
-    """A LoopSocket whose *reader* can be held back: while the gate is closed recv() behaves like an idle link
-    (socket.timeout after an Event wait), the bytes stay queued and are delivered in order once it opens."""
+    """A LoopSocket whose *reader* can be held back (see frag_gate_socket): while the gate is closed recv() behaves
+    like an idle link, the bytes stay queued and are delivered in order once it opens."""
+    return frag_gate_socket()
+
+
+def frag_gate_socket():
+    """gate_socket() plus a delivery script: while `script` is non-empty, an int k makes the next recv() return at
+    most k bytes, "t" makes it raise socket.timeout; afterwards (and when the gate is set) delivery is normal."""
     from tests._loop import LoopSocket
 
-    class Gate(LoopSocket):
+    class FragGate(LoopSocket):
         def __init__(self):
             super().__init__()
             self.gate = threading.Event()
             self.gate.set()
+            self.script = []
+            self.delivered = []
+            self.asked = []
+            self.parked = threading.Event()
+
+        def close_gate(self, limit=20):
+            """close the gate and wait until the reader has run into it: a recv() that was already waiting inside
+            the socket when the gate closed can no longer pick up what is sent from now on"""
+            self.parked.clear()
+            self.gate.clear()
+            if not self.parked.wait(limit):
+                raise InfraError("the reader never reached the closed gate")
 
         def recv(self, n):
+            if self.script:
+                ev = self.script.pop(0)
+                if ev == "t":
+                    self.delivered.append("t")
+                    raise socket.timeout
+                r = super().recv(min(n, ev))
+                self.asked.append(n)
+                self.delivered.append(len(r))
+                return r
             if not self.gate.wait(0.05):
+                self.parked.set()
                 raise socket.timeout
+            if self.script:          # a script installed while we were waiting at the gate comes first
+                return self.recv(n)
             return super().recv(n)
 
-    return Gate()
+    return FragGate()
 
 
 def swallow_unimplemented(transport, sink):
